@@ -21,6 +21,18 @@ static const size_t npos = std::string::npos;
 
 static const unsigned char ALPHA[5] = { 0x00, 'a', 'b', 0x80, 0xFF };
 
+// std::string_view::starts_with / ends_with exist from C++20 on; in a C++17 build of the check the
+// reference is their definition in terms of compare()
+#if __cplusplus >= 202002L
+template <typename X> static bool std_starts_with(std::string_view s, X x) { return s.starts_with(x); }
+template <typename X> static bool std_ends_with(std::string_view s, X x) { return s.ends_with(x); }
+#else
+static bool std_starts_with(std::string_view s, std::string_view x) { return s.size() >= x.size() && s.compare(0, x.size(), x) == 0; }
+static bool std_starts_with(std::string_view s, char c) { return !s.empty() && s.front() == c; }
+static bool std_ends_with(std::string_view s, std::string_view x) { return s.size() >= x.size() && s.compare(s.size() - x.size(), std::string_view::npos, x) == 0; }
+static bool std_ends_with(std::string_view s, char c) { return !s.empty() && s.back() == c; }
+#endif
+
 static std::string nth_string(uint64_t idx, size_t maxlen) {
     // enumeration: length 0, then all of length 1, ...
     uint64_t cnt = 1;
@@ -212,12 +224,12 @@ static void check_pair(const std::string& h, const std::string& x, Rng& rng, boo
     chk("operator>(char*,view)", [&] { return xc > t; }, [&] { return xc > s; });
     chk("operator>=(view,char*)", [&] { return t >= xc; }, [&] { return s >= xc; });
     chk("operator>=(char*,view)", [&] { return xc >= t; }, [&] { return xc >= s; });
-    chk("starts_with(view)", [&] { return t.starts_with(tx); }, [&] { return s.starts_with(sx); });
-    chk("ends_with(view)", [&] { return t.ends_with(tx); }, [&] { return s.ends_with(sx); });
+    chk("starts_with(view)", [&] { return t.starts_with(tx); }, [&] { return std_starts_with(s, sx); });
+    chk("ends_with(view)", [&] { return t.ends_with(tx); }, [&] { return std_ends_with(s, sx); });
     if (!x.empty()) {
         char c = x[0];
-        chk("starts_with(char)", [&] { return t.starts_with(c); }, [&] { return s.starts_with(c); });
-        chk("ends_with(char)", [&] { return t.ends_with(c); }, [&] { return s.ends_with(c); });
+        chk("starts_with(char)", [&] { return t.starts_with(c); }, [&] { return std_starts_with(s, c); });
+        chk("ends_with(char)", [&] { return t.ends_with(c); }, [&] { return std_ends_with(s, c); });
     }
     // hash must be consistent with ==
     if (h == x) {
@@ -304,8 +316,8 @@ static void check_shared(const std::string& h, Rng& rng) {
         chk("shared-storage:operator>(view,view)", [&] { return t > tx; }, [&] { return s > sx; });
         chk("shared-storage:operator>=(view,view)", [&] { return t >= tx; }, [&] { return s >= sx; });
         chk("shared-storage:compare(view)", [&] { return sign(t.compare(tx)); }, [&] { return sign(s.compare(sx)); });
-        chk("shared-storage:starts_with(view)", [&] { return t.starts_with(tx); }, [&] { return s.starts_with(sx); });
-        chk("shared-storage:ends_with(view)", [&] { return t.ends_with(tx); }, [&] { return s.ends_with(sx); });
+        chk("shared-storage:starts_with(view)", [&] { return t.starts_with(tx); }, [&] { return std_starts_with(s, sx); });
+        chk("shared-storage:ends_with(view)", [&] { return t.ends_with(tx); }, [&] { return std_ends_with(s, sx); });
         chk("shared-storage:find(view)", [&] { return t.find(tx); }, [&] { return s.find(sx); });
         chk("shared-storage:rfind(view)", [&] { return t.rfind(tx); }, [&] { return s.rfind(sx); });
         chk("shared-storage:find_first_of(view)", [&] { return t.find_first_of(tx); }, [&] { return s.find_first_of(sx); });
@@ -362,10 +374,10 @@ static void check_null(const std::string& x, Rng& rng) {
         chk("null-view:operator==(view,char*)", [&] { return t == xc; }, [&] { return s == xc; });
         chk("null-view:compare(view)", [&] { return sign(t.compare(tx)); }, [&] { return sign(s.compare(sx)); });
         chk("null-view:compare(view) reversed", [&] { return sign(tx.compare(t)); }, [&] { return sign(sx.compare(s)); });
-        chk("null-view:starts_with(view)", [&] { return t.starts_with(tx); }, [&] { return s.starts_with(sx); });
-        chk("null-view:ends_with(view)", [&] { return t.ends_with(tx); }, [&] { return s.ends_with(sx); });
-        chk("null-view:starts_with(null view)", [&] { return tx.starts_with(t); }, [&] { return sx.starts_with(s); });
-        chk("null-view:ends_with(null view)", [&] { return tx.ends_with(t); }, [&] { return sx.ends_with(s); });
+        chk("null-view:starts_with(view)", [&] { return t.starts_with(tx); }, [&] { return std_starts_with(s, sx); });
+        chk("null-view:ends_with(view)", [&] { return t.ends_with(tx); }, [&] { return std_ends_with(s, sx); });
+        chk("null-view:starts_with(null view)", [&] { return tx.starts_with(t); }, [&] { return std_starts_with(sx, s); });
+        chk("null-view:ends_with(null view)", [&] { return tx.ends_with(t); }, [&] { return std_ends_with(sx, s); });
         for (size_t pos : { (size_t)0, (size_t)1, (size_t)2, x.size(), x.size() + 1, npos }) {
             g_pos = pos;
 #define NULLFAM(NAME)                                                                                   \
